@@ -490,6 +490,19 @@ def rule_invalidation_tables(check, rule, precision_rule=None):
         key = 'visit_Name|%s' % ' & '.join(show_lit(l) for l in p.lits)[:120]
         skip = not sets
         st = site_of(fi, fi.node)
+        # the other way of invalidating: the marker of an enclosing scope is tainted (nested def/lambda reading a
+        # variable of the enclosing function); accepted only for a marker obtained from the namespace by this very name
+        tstores = [e for e in p.effects if e.kind == 'store_attr' and e.op == 'tainted']
+        if skip and tstores:
+            tgt = tstores[0].target
+            ok_t = any(isinstance(s_, tuple) and s_ == ('A', nodep, 'id') for s_ in subterms(tgt)) and 'namespace' in show(tgt)
+            if ok_t and load is not False:
+                check.holds(rule, st, 'a variable of an enclosing scope read inside a nested function: its marker in the enclosing scope is tainted',
+                            key=key, guards=' & '.join(show_lit(l) for l in p.lits))
+            else:
+                check.violation(rule, st, 'visit_Name taints %s instead of invalidating the name' % show(tgt)[:60], key=key,
+                                guards=' & '.join(show_lit(l) for l in p.lits))
+            continue
         if skip:
             if imm is True and load is True:
                 check.holds(rule, st, 'a name is left alone only when it holds an immutable value and is merely read', key=key)
@@ -935,6 +948,10 @@ def rule_scope_chain_lookups(check, rule):
                 handled = False
                 while t is not None and t is not fi.node:
                     par = getattr(t, '_parent', None)
+                    if isinstance(par, ast.If) and t in par.body and isinstance(par.test, ast.Compare) and len(par.test.ops) == 1 \
+                            and isinstance(par.test.ops[0], ast.In) and norm(par.test.comparators[0]) == norm(x.value) \
+                            and norm(par.test.left) == norm(x.slice):
+                        handled = True      # dominated by `key in <table>`
                     if isinstance(par, ast.Try) and t in par.body:
                         for h in par.handlers:
                             names = [norm(y) for y in (h.type.elts if isinstance(h.type, ast.Tuple) else [h.type])] if h.type is not None else ['BaseException']
@@ -943,9 +960,96 @@ def rule_scope_chain_lookups(check, rule):
                     t = par
                 key = '%s|names-subscript|%s' % (fi.key, norm(x))
                 if handled:
-                    check.holds(rule, site_of(fi, x), '%s is read under a KeyError handler (falls back to the enclosing scope)' % norm(x), key=key)
+                    check.holds(rule, site_of(fi, x), '%s is read under a KeyError handler or a membership test' % norm(x), key=key)
                 else:
                     check.violation(rule, site_of(fi, x), '%s reads one scope\'s own table without a KeyError handler: a name bound only in an '
                                     'enclosing scope raises KeyError out of retrieval' % norm(x), key=key,
                                     witness='a nested def/lambda calling a method on a parameter of the enclosing function')
     check.floor(rule, 'reads of a namespace table by subscript', n, 1)
+
+
+def _walks_parent(fnode):
+    """does this function follow the `.parent` chain of namespaces (loop or recursion through self.parent[...])?"""
+    for n in ast.walk(fnode):
+        if isinstance(n, ast.Attribute) and n.attr == 'parent':
+            return True
+    return False
+
+
+def rule_nested_scope_effects(check, rule):
+    """C05.R9: a nested function (def / lambda) can run at any time, also before a forwarding call of the main body.
+    (a) What it does to a variable of an enclosing scope -- reading it (so that it can be handed to other code or
+    altered in place) -- must invalidate the *enclosing* binding, not a shadow in the nested scope's own table.
+    (b) Calls of nested scopes are analysed after the main body (deferred); what they taint must be applied to the
+    calls already recorded, whose star arguments were resolved eagerly."""
+    repo = check.repo
+    vis = repo.cls(VIS.split(':')[0] + ':' + VIS.split(':')[1])
+    ns_cls = repo.cls(AF + ':Namespace')
+    init = vis.methods.get('__init__')
+    vn = vis.methods.get('visit_Name')
+    vc = vis.methods.get('visit_Call')
+    pc = vis.methods.get('process_Call')
+    if not (init and vn and vc and pc):
+        raise Inconclusive('CallListerVisitor.__init__/visit_Name/visit_Call/process_Call vanished')
+    for f_ in (init, vn, vc, pc):
+        check.analysed(f_)
+    selfn = init.params()[0][0]
+    # ---- is there deferral at all?
+    deferred_attr = None
+    for n in ast.walk(vc.node):
+        if isinstance(n, ast.Call) and isinstance(n.func, ast.Attribute) and n.func.attr == 'append' and isinstance(n.func.value, ast.Attribute):
+            deferred_attr = n.func.value.attr
+    # (a) reads of enclosing variables
+    key = 'nested|outer-read'
+    stores_local = [n for n in ast.walk(vn.node) if isinstance(n, ast.Subscript) and isinstance(n.ctx, ast.Store)
+                    and norm(n.value).endswith('.namespace')]
+    taints = [n for n in ast.walk(vn.node) if isinstance(n, ast.Attribute) and n.attr == 'tainted' and isinstance(n.ctx, ast.Store)]
+    ns_calls = [n for n in ast.walk(vn.node) if isinstance(n, ast.Call) and isinstance(n.func, ast.Attribute)
+                and norm(n.func.value).endswith('.namespace') and n.func.attr in ns_cls.methods]
+    walking = [c for c in ns_calls if _walks_parent(ns_cls.methods[c.func.attr].node)]
+    setitem = ns_cls.methods.get('__setitem__')
+    setitem_walks = setitem is not None and _walks_parent(setitem.node)
+    if taints and walking:
+        check.holds(rule, site_of(vn, taints[0]), 'a read of an enclosing scope\'s variable inside a nested function marks the enclosing binding '
+                    '(looked up through Namespace.%s along the scope chain)' % walking[0].func.attr, key=key)
+    elif stores_local and not setitem_walks:
+        check.violation(rule, site_of(vn, stores_local[0]), 'visit_Name only writes `self.namespace[name] = Unknown(...)`, and Namespace.__setitem__ '
+                        'stores into the current scope\'s own table: inside a nested def/lambda a variable of the enclosing function that is read '
+                        '(handed to other code, subscripted, altered) is shadowed locally while the enclosing **kwargs/*args stays marked as '
+                        'safe to forward', key=key,
+                        witness="def f(**kwargs):\n    def h(): kwargs['extra'] = 1\n    h(); return inner(1, 2, **kwargs)  -> advertises inner's keywords")
+    else:
+        check.inconclusive(rule, site_of(vn, vn.node), 'invalidation in visit_Name not recognised', key=key)
+    # (b) deferred taints are re-applied
+    key = 'nested|late-taint'
+    if deferred_attr is None:
+        check.holds(rule, site_of(vc, vc.node), 'calls of nested scopes are not deferred', key=key, nontrivial=False)
+        return
+    loops = [n for n in init.node.body if (isinstance(n, ast.For) and norm(n.iter).endswith('.' + deferred_attr))
+             or (isinstance(n, ast.While) and any(isinstance(x, ast.Attribute) and x.attr == deferred_attr for x in ast.walk(n.test)))]
+    if not loops:
+        check.inconclusive(rule, site_of(init, init.node), 'deferred calls (self.%s) are not processed in __init__' % deferred_attr, key=key)
+        return
+    after = init.node.body[init.node.body.index(loops[-1]) + 1:]
+    recheck = None
+    for st_ in after:
+        for n in ast.walk(st_):
+            if isinstance(n, ast.Call) and isinstance(n.func, ast.Attribute) and isinstance(n.func.value, ast.Name) and n.func.value.id == selfn \
+                    and n.func.attr in vis.methods:
+                m_ = vis.methods[n.func.attr]
+                if any(isinstance(x, ast.Attribute) and x.attr == 'get_untainted' for x in ast.walk(m_.node)):
+                    recheck = (n, m_)
+    taint_in_pc = any(isinstance(x, ast.Attribute) and x.attr == 'tainted' and isinstance(x.ctx, ast.Store) for x in ast.walk(pc.node)) or \
+        any(isinstance(x, ast.Call) and isinstance(x.func, ast.Attribute) and x.func.attr in ns_cls.methods
+            and any(isinstance(y, ast.Attribute) and y.attr == 'tainted' and isinstance(y.ctx, ast.Store) for y in ast.walk(ns_cls.methods[x.func.attr].node))
+            for x in ast.walk(pc.node))
+    if not taint_in_pc:
+        check.holds(rule, site_of(pc, pc.node), 'deferred processing sets no taint', key=key, nontrivial=False)
+    elif recheck is not None:
+        check.holds(rule, site_of(init, recheck[0]), 'after the deferred calls of nested scopes, the recorded calls are re-evaluated against what those '
+                    'scopes tainted (%s)' % recheck[1].name, key=key)
+    else:
+        check.violation(rule, site_of(init, loops[-1]), 'calls inside nested functions are analysed after the main body, and the taint they put on '
+                        '*args/**kwargs (a method called on it) arrives after the forwarding calls of the main body were recorded with their star '
+                        'arguments already resolved: nothing re-evaluates them', key=key,
+                        witness="def f(**kwargs):\n    def h(): kwargs.pop('z')\n    h(); return inner(1, 2, **kwargs)  -> still advertises z")
